@@ -239,10 +239,10 @@ def _one_quic(job):
 
     stamp = {id(fr): ts0 + 1013 * i for i, fr in enumerate(merged)}
 
-    def run(frames, kl, ts_of=None):
+    def run(frames, kl, ts_of=None, opts=()):
         # every packet keeps the capture time it has in the fault-free capture (a damaged packet inherits its original's)
         pk = [((ts_of or {}).get(i, stamp.get(id(fr))), fr) for i, fr in enumerate(frames)]
-        res = runner.run_inproc(pcapng_bytes(pk), "\n".join(kl) + "\n")
+        res = runner.run_inproc(pcapng_bytes(pk), "\n".join(kl) + "\n", opts=list(opts))
         if res.crashed or res.out is None:
             return None, "run aborted: " + (res.exc or "no output").strip().splitlines()[-1]
         o = Observation(res.out)
@@ -255,6 +255,7 @@ def _one_quic(job):
     base, err = run(merged, keylog)
     if err or base["v"] != vtruth or base["problems"]:
         return dict(results=[dict(fault=dict(kind="none"), bad=["fault-free QUIC run is not exact: " + str(err or base["problems"])])], n=1, suite=suite)
+    base_a, _err_a = run(merged, keylog, opts=["-a"])         # reference for the runs with metadata export
     vidx = [i for i, (w, _k) in enumerate(owner) if w == "v"]
     faults = []
     for i in vidx:
@@ -291,6 +292,9 @@ def _one_quic(job):
         if first & 0x80 and ln > 8 and rng.random() < 0.7:
             body = b"\x00\x00\x00\x01" + bytes([rng.choice([0, 8, 20, 21, 255])]) + body[5:]
         faults.append(dict(kind="foreign_udp", payload=(bytes([first]) + body).hex(), at=rng.randrange(len(merged) + 1), port=rng.choice([443, 4433, 53])))
+    # a Version Negotiation packet (version 0, list of versions) from other endpoints, and one shaped like an answer to the victim's Initial
+    vn = bytes([0x80 | rng.getrandbits(7)]) + b"\x00\x00\x00\x00" + bytes([8]) + bytes(rng.getrandbits(8) for _ in range(8)) + bytes([4]) + b"abcd" + b"\x00\x00\x00\x01\x6b\x33\x43\xcf"
+    faults.append(dict(kind="foreign_udp", payload=vn.hex(), at=rng.randrange(len(merged) + 1), port=443))
     fx = mk_flow(7, sport=443)
     results = []
     for f in faults:
@@ -337,6 +341,15 @@ def _one_quic(job):
                 bad.append("TLS bystander is exported differently from the fault-free run")
             if k == "foreign_udp" and got["v"] != base["v"]:
                 bad.append("victim (here: a third healthy QUIC flow) is exported differently once foreign UDP datagrams are in the capture")
+            if k in ("foreign_udp", "sethdr") and base_a is not None:
+                # the same fault with metadata export: other code paths handle the frames that are not stream data (Version Negotiation, CRYPTO)
+                ga, ea = run(frames, kl, ts_of={f["pkt"]: stamp[id(merged[f["pkt"]])]} if k == "sethdr" else None, opts=["-a"])
+                if ea:
+                    bad.append("with -a: " + ea)
+                elif ga["q"] != base_a["q"] or ga["t"] != base_a["t"]:
+                    bad.append("with -a: a bystander is exported differently from the fault-free -a run")
+                elif ga["problems"]:
+                    bad.append("with -a: output malformed: " + ga["problems"][0])
             if k in ("drop",) and not is_sublist(got["v"], vtruth):
                 bad.append("victim: exported datagrams are not an order-preserving sub-list of the datagrams sent (altered or invented data)")
             if k in ("cut_before", "cut_after", "rmkeys") and not (is_sublist(got["v"], vtruth)):
